@@ -632,10 +632,12 @@ def minimize_lbfgsb(
                         jac=grad,
                         nfev=sf.nfev,
                         njev=sf.ngev,
-                        nit=istate.nit,
+                        # this iteration is complete: same count as a run stopped here
+                        nit=istate.nit + 1,
                         status=istate.warnflag,
                         message=istate.task_str,
-                        x=x,
+                        # a snapshot: x is updated in place at the next iteration
+                        x=np.copy(x),
                         success=istate.is_success,
                         hess_inv=LbfgsInvHessProduct(
                             np.atleast_2d(np.diff(np.array(X), axis=0)),
